@@ -262,8 +262,16 @@ class HTMLSerializer(object):
             from .filters.optionaltags import Filter
             treewalker = Filter(treewalker)
 
+        after_newline_eater = False
         for token in treewalker:
             type = token["type"]
+            if after_newline_eater:
+                # A newline right after the <pre>, <textarea> or <listing>
+                # start tag is dropped by the parser, so double it
+                after_newline_eater = False
+                if (type in ("Characters", "SpaceCharacters") and
+                        token["data"].startswith("\n")):
+                    yield self.encodeStrict("\n")
             if type == "Doctype":
                 doctype = "<!DOCTYPE %s" % token["name"]
 
@@ -300,6 +308,9 @@ class HTMLSerializer(object):
             elif type in ("StartTag", "EmptyTag"):
                 name = token["name"]
                 yield self.encodeStrict("<%s" % name)
+                if (type == "StartTag" and name in ("pre", "textarea", "listing") and
+                        token.get("namespace") in (None, namespaces["html"])):
+                    after_newline_eater = True
                 if (name in rcdataElements and not self.escape_rcdata and
                         token.get("namespace") in (None, namespaces["html"])):
                     # (an SVG or MathML element of that name is not raw text)
